@@ -176,6 +176,17 @@ type EncapDecl struct {
 // package-level variable whenever it is read (TRUSTED; for variables of other packages).
 type GlobalFact struct{ Var, Pred string }
 
+// ConstMap: `constmap <var> [Cxx] has K1, K2, ...`: the package-level map variable is built once,
+// by the package initialiser, with (at least) the listed constant keys, and nothing else in the
+// package assigns the variable or updates/deletes/clears a map read from it (checked on every
+// run: obligation constmap/<var>); loads of the variable then know the keys are present.
+type ConstMap struct {
+	Var   string
+	Props []string
+	Keys  []Expr
+	Text  string
+}
+
 type SpecFile struct {
 	Path    string
 	Pures   []*PureFunc
@@ -187,6 +198,7 @@ type SpecFile struct {
 	Regexes []*RegexDecl
 	Encaps  []*EncapDecl
 	GFacts  []*GlobalFact
+	CMaps   []*ConstMap
 	RawText string
 }
 
@@ -324,7 +336,7 @@ var clauseKeywords = map[string]bool{
 	"requires": true, "ensures": true, "establishes": true, "modifies": true, "loop": true, "at": true,
 	"property": true, "nopanic": true, "reveal": true, "pure": true, "func": true,
 	"ghost": true, "lemma": true, "axiom": true, "extern": true, "fresh": true,
-	"maypanic": true, "regex": true, "globalfact": true, "objinvariant": true, "entryfact": true, "encapsulated": true, "inline": true, "boundary": true, "immutable": true, "bounded": true, "opaque": true, "pathflag": true,
+	"maypanic": true, "regex": true, "globalfact": true, "constmap": true, "objinvariant": true, "entryfact": true, "encapsulated": true, "inline": true, "boundary": true, "immutable": true, "bounded": true, "opaque": true, "pathflag": true,
 }
 
 func (p *parser) parseExpr(minPrec int) (Expr, error) {
@@ -751,6 +763,31 @@ func (p *parser) parseFile() (*SpecFile, error) {
 				return nil, err
 			}
 			sf.Immut = append(sf.Immut, tn+"."+p.next().s)
+		case "constmap":
+			p.next()
+			start := p.peek().pos
+			cm := &ConstMap{Var: p.next().s}
+			if p.isOp("[") {
+				cm.Props, _ = p.parseClauseTag()
+			}
+			if !p.isID("has") {
+				return nil, p.errf("constmap: expected 'has'")
+			}
+			p.next()
+			for {
+				e, err := p.parseExpr(0)
+				if err != nil {
+					return nil, err
+				}
+				cm.Keys = append(cm.Keys, e)
+				if p.isOp(",") {
+					p.next()
+					continue
+				}
+				break
+			}
+			cm.Text = p.textSince(start)
+			sf.CMaps = append(sf.CMaps, cm)
 		case "globalfact":
 			p.next()
 			pk := p.next().s
